@@ -187,7 +187,13 @@ def run(ctx: core.Ctx):
         pass
 
     # accessor element-wise
-    times = pd.DatetimeIndex([pd.Timestamp(date.fromordinal(rng.randrange(693596, 740000))) + pd.Timedelta(seconds=rng.randrange(86400)) for _ in range(200)]).sort_values()
+    stamps = [pd.Timestamp(date.fromordinal(rng.randrange(693596, 740000))) + pd.Timedelta(seconds=rng.randrange(86400)) for _ in range(200)]
+    # the instants at which a dekad ends / begins, to the microsecond (and a nanosecond axis): the accessor must not round the time
+    for _ in range(60):
+        dk0 = Dekad(rng.randrange(36 * 1950, 36 * 2100))
+        stamps += [pd.Timestamp(dk0.end_date), pd.Timestamp(dk0.start_date), pd.Timestamp(dk0.end_date) - pd.Timedelta(microseconds=rng.choice([1, 499999, 500000])),
+                   pd.Timestamp(dk0.start_date) + pd.Timedelta(microseconds=rng.choice([1, 499999, 500001]))]
+    times = pd.DatetimeIndex(stamps).sort_values()
     da = xr.DataArray(np.arange(len(times)), dims=("time",), coords={"time": times})
     acc = da.time.dekad
     cols = dict(idx=acc.idx.values, yidx=acc.yidx.values, ndays=acc.ndays.values, label=acc.label.values, raw=acc.raw.values,
